@@ -71,6 +71,10 @@ def c03_cls(ctx, case):
     ctx.sig_on_exception = sig
     a = est.build(row, x, p, NFFT=case["nfft"])
     pa = est.psd_of(a)
+    why = est.degenerate(row, a)
+    if why:
+        ctx.exclude(why)
+        return
     b = est.build(row, c * x, p, NFFT=case["nfft"])
     pb = est.psd_of(b)
     ctx.cls(row, "complex" if cplx else "real", "|c|>1" if ac > 1 else "|c|<1",
@@ -235,6 +239,9 @@ def c03_fn(ctx, case):
         ctx.exclude("AICc/AKICc need order <= N-3")
         return
     ra = run_fn(fn, x, q)
+    if fn == "arma_estimate" and (not np.all(np.isfinite(ra[0][1])) or (len(ra[0][1]) and float(np.max(np.abs(ra[0][1]))) > 50.0)):
+        ctx.exclude("arma_estimate: near-singular modified Yule-Walker system (max|ar| > 50)")
+        return
     rb = run_fn(fn, c * x, q)
     ctx.cls(label, "complex" if cplx else "real", "|c|>1" if ac > 1 else "|c|<1")
     ctx.nontrivial(nontriv(case["c"], x))
